@@ -116,13 +116,14 @@ def fd_gradient(case):
     cf = G.with_flat(case)
     x = np.array(cf["x"], float)
     g = np.zeros(len(x))
+    f = A.evaluator(cf)
     for j in range(len(x)):
         h = 2e-4 * max(abs(x[j]), 0.05)
         v = []
         for s in (-2, -1, 1, 2):
             xs = x.copy()
             xs[j] += s * h
-            v.append(A.value_only(cf, xs))
+            v.append(f(xs))
         g[j] = (v[0] - 8 * v[1] + 8 * v[2] - v[3]) / (12 * h)
     return g
 
